@@ -120,10 +120,14 @@ where
             while let Some(cmd) = self.cmd_rx.recv().await {
                 #[cfg(polytune_verif)]
                 crate::verif::gate("cmd", cmd.verif_name(), self.verif_tag).await;
+                #[cfg(polytune_verif)]
+                let verif_tag = self.verif_tag;
                 self = match self.handle_cmd(cmd).await {
                     ControlFlow::Continue(this) => this,
                     ControlFlow::Break(_) => {
                         debug!("stopping state machine");
+                        #[cfg(polytune_verif)]
+                        crate::verif::probe("handled", "Stopped", verif_tag);
                         return;
                     }
                 }
@@ -265,6 +269,12 @@ where
                 return ControlFlow::Break(());
             }
         }
+        #[cfg(polytune_verif)]
+        crate::verif::probe(
+            "handled",
+            &format!("{:?}", self.state_kind),
+            self.verif_tag,
+        );
         ControlFlow::Continue(self)
     }
 }
@@ -743,6 +753,8 @@ where
                 let consts = mem::take(&mut self.consts);
                 // We compile the program in a separate thread so we don't block the runtime
                 let span = Span::current();
+                #[cfg(polytune_verif)]
+                crate::verif::probe("compile_start", "", self.verif_tag);
                 thread::spawn(move || {
                     let _g = span.enter();
                     debug!("compiling garble program");
@@ -761,6 +773,8 @@ where
                 let compiled = match compiled_rx.await {
                     Ok(Ok(compiled)) => compiled,
                     Ok(Err(err)) => {
+                        #[cfg(polytune_verif)]
+                        crate::verif::probe("compile_end", "err", self.verif_tag);
                         if let Some(url) = policy.output {
                             let _ = channel
                                 .client
@@ -772,6 +786,8 @@ where
                     }
                     // sender has been dropped which means the compile thread panicked
                     Err(_) => {
+                        #[cfg(polytune_verif)]
+                        crate::verif::probe("compile_end", "panic", self.verif_tag);
                         if let Some(url) = policy.output {
                             let _ = channel
                                 .client
@@ -781,6 +797,8 @@ where
                         return ControlFlow::Break(());
                     }
                 };
+                #[cfg(polytune_verif)]
+                crate::verif::probe("compile_end", "ok", self.verif_tag);
                 debug!(
                     and_ops = compiled.circuit.ands(),
                     total_ops = compiled.circuit.ops(),
